@@ -343,8 +343,12 @@ func makeVaryHash(vary map[string]string) uint64 {
 	keys = slices.AppendSeq(keys, maps.Keys(vary))
 	slices.Sort(keys)
 	for _, k := range keys {
+		// NUL-delimit names and values (neither can contain NUL) so that
+		// different variants cannot produce the same byte stream.
 		_, _ = h.Write([]byte(k))
+		_, _ = h.Write([]byte{0})
 		_, _ = h.Write([]byte(vary[k]))
+		_, _ = h.Write([]byte{0})
 	}
 	return h.Sum64()
 }
